@@ -277,7 +277,19 @@ def xy_refs_designate_written_cells(l0: int, l1: int, l2: int, bubble: bool) -> 
                 ser.add_data_point(x, y)
             pts.append((x, y, z))
         data.append(pts)
-    w = (BubbleWorkbookWriter if bubble else XyWorkbookWriter)(cd)
+    w = cd._workbook_writer  # the writer the chart part uses: it lives as long as the chart-data object
+    ok = _xy_consistent(cd, w, data, bubble)
+    # stale state: append a point to the first series of the same chart-data object and render again
+    x, y, z = 77.0, 78.5, 79.0
+    if bubble:
+        cd[0].add_data_point(x, y, z)
+    else:
+        cd[0].add_data_point(x, y)
+    data[0].append((x, y, z))
+    return ok and _xy_consistent(cd, w, data, bubble)
+
+
+def _xy_consistent(cd, w, data, bubble):
     sh = _Sheet()
     w._populate_worksheet(_Workbook(), sh)
     ok = True
@@ -301,6 +313,63 @@ def xy_refs_designate_written_cells(l0: int, l1: int, l2: int, bubble: bool) -> 
             if bubble:
                 ok = ok and _cache_matches(ser.xpath("./c:bubbleSize/c:numRef")[0], sh, True)
     return ok
+
+
+def _xml_agrees_with_sheet(root, sh, kind):
+    ok = True
+    for ser in root.xpath(".//c:ser"):
+        ok = ok and _cache_matches(ser.xpath("./c:tx/c:strRef")[0], sh, False)
+        if kind == 0:
+            ok = ok and _cache_matches(ser.xpath("./c:val/c:numRef")[0], sh, True)
+            ok = ok and _cache_matches(ser.xpath("./c:cat/c:strRef")[0], sh, False)
+        else:
+            ok = ok and _cache_matches(ser.xpath("./c:xVal/c:numRef")[0], sh, True)
+            ok = ok and _cache_matches(ser.xpath("./c:yVal/c:numRef")[0], sh, True)
+            if kind == 2:
+                ok = ok and _cache_matches(ser.xpath("./c:bubbleSize/c:numRef")[0], sh, True)
+    return ok
+
+
+def _make_data(kind, ns, npts, tag):
+    if kind == 0:
+        cd = CategoryChartData()
+        cd.categories = ["%sc%d" % (tag, i) for i in range(npts)]
+        for s in range(ns):
+            cd.add_series("%sS%d" % (tag, s), [VALS[(s * 3 + i) % 9] for i in range(npts)])
+        return cd
+    cd = BubbleChartData() if kind == 2 else XyChartData()
+    for s in range(ns):
+        ser = cd.add_series("%sS%d" % (tag, s))
+        for i in range(npts):
+            if kind == 2:
+                ser.add_data_point(float(10 * s + i), VALS[(s * 3 + i) % 9], float(100 + i))
+            else:
+                ser.add_data_point(float(10 * s + i), VALS[(s * 3 + i) % 9])
+    return cd
+
+
+@cond(timeout=900, encodes=ENC + ["pptx.chart.xmlwriter:_BaseSeriesXmlRewriter.replace_series_data", "pptx.chart.xmlwriter:_BaseSeriesXmlRewriter._adjust_ser_count",
+                                  "pptx.chart.xmlwriter:_BaseSeriesXmlRewriter._add_cloned_sers", "pptx.chart.xmlwriter:_BaseSeriesXmlRewriter._trim_ser_count_by",
+                                  "pptx.chart.xmlwriter:_CategorySeriesXmlRewriter._rewrite_ser_data", "pptx.chart.xmlwriter:_XySeriesXmlRewriter._rewrite_ser_data",
+                                  "pptx.chart.xmlwriter:_BubbleSeriesXmlRewriter._rewrite_ser_data"],
+      bound="replace_data on a generated chart (category bar / XY / bubble; choice variable) that has n0 in 1..3 series of p0 in 1..3 "
+            "points, with new data of n1 in 1..3 series of p1 in 1..3 points (growing, shrinking, same): every reference and cache in the "
+            "rewritten XML designates the cells the real workbook writer writes for the new data")
+def replace_data_refs_designate_written_cells(kind: int, n0: int, p0: int, n1: int, p1: int) -> bool:
+    """
+    pre: 0 <= kind <= 2 and 1 <= n0 <= 3 and 1 <= p0 <= 3 and 1 <= n1 <= 3 and 1 <= p1 <= 3
+    post: _
+    """
+    from pptx.chart.xmlwriter import SeriesXmlRewriterFactory
+
+    ct = choose([XL_CHART_TYPE.BAR_CLUSTERED, XL_CHART_TYPE.XY_SCATTER, XL_CHART_TYPE.BUBBLE], kind)
+    old = _make_data(kind, n0, p0, "o")
+    root = parse_xml(untraced_call(ChartXmlWriter, ct, old).xml.encode("utf-8"))
+    new = _make_data(kind, n1, p1, "n")
+    SeriesXmlRewriterFactory(ct, new).replace_series_data(root)
+    sh = _Sheet()
+    new._workbook_writer._populate_worksheet(_Workbook(), sh)
+    return len(root.xpath(".//c:ser")) == n1 and _xml_agrees_with_sheet(root, sh, kind)
 
 
 @cond(expect="refute", timeout=300, twin_of="xy_refs_designate_written_cells")
